@@ -1,7 +1,76 @@
 import PydlVerif.Model.JsonUtil
+import PydlVerif.Model.Wave
 open Lean
 namespace PydlVerif.Driver.C19
+open PydlVerif PydlVerif.Wave
 
-def handle (_j : Json) : Except String Json := throw "C19: no model operations yet"
+/-- the Float instance of the `pow10` parameter: libm `pow(10, x)` -/
+def pow10F (x : Float) : Float := Float.pow 10.0 x
+
+def unitOf (j : Json) : Except String (Option (Float × Float)) :=
+  J.fOpt (fun u => do
+    match ← J.list J.float u with
+    | [k, kinv] => pure (k, kinv)
+    | _ => throw "unit: need [k, kinv]") j "unit"
+
+def maskOf (j : Json) : Except String (List Bool) := do
+  let ns ← J.list J.int j
+  pure (ns.map (· != 0))
+
+def decJ (d : Dec) : Json :=
+  Json.arr #[Json.bool d.neg, J.ofNat d.m, Json.bool d.s, J.ofNat d.e]
+
+def handle (j : Json) : Except String Json := do
+  let op ← J.fStr j "op"
+  match op with
+  | "a2v" => pure (J.ofFloat (airtovac1 (← J.fFloat j "x")))
+  | "v2a" => pure (J.ofFloat (vactoair1 (← J.fFloat j "x")))
+  | "a2v_arr" =>
+    let xs ← J.list J.float (← J.fld j "xs")
+    pure (J.ofList J.ofFloat (airtovacArr (← unitOf j) xs))
+  | "v2a_arr" =>
+    let xs ← J.list J.float (← J.fld j "xs")
+    pure (J.ofList J.ofFloat (vactoairArr (← unitOf j) xs))
+  | "ab" =>
+    let rows ← J.list (J.list J.float) (← J.fld j "rows")
+    let mag ← J.fBool j "magnitude"
+    let ivar ← J.fBool j "ivar"
+    match sdssflux2ab pow10F mag ivar rows with
+    | .ok r => pure (Json.mkObj [("ok", J.ofList (J.ofList J.ofFloat) r)])
+    | .error e => pure (Json.mkObj [("err", Json.str e)])
+  | "interp" =>
+    let f ← J.list J.float (← J.fld j "f")
+    let m ← maskOf (← J.fld j "m")
+    pure (J.ofList J.ofFloat (maskInterp m f))
+  | "filter" =>
+    -- one trace: flux row, optional mask row, one weight row per band
+    let f ← J.list J.float (← J.fld j "f")
+    let m ← J.fOpt maskOf j "m"
+    let rs ← J.list (J.list J.float) (← J.fld j "rs")
+    let f' := match m with
+      | none => f
+      | some m => maskInterp m f
+    pure (J.ofList J.ofFloat (rs.map (fun r => filterMean r f')))
+  | "rt_rat" =>
+    -- exact run of the same model text at core `Rat` on the rational value of the float input:
+    -- both round trips against the proved bound 109/a³, and the exact values for comparison with Float
+    let x : Rat := ratOfBits (← J.bits (← J.fld j "x"))
+    let v : Rat := airtovac1 x
+    let a : Rat := vactoair1 x
+    let dAir : Rat := vactoair1 v - x
+    let dVac : Rat := airtovac1 a - x
+    let absR (q : Rat) : Rat := if q < 0 then -q else q
+    let okAir : Bool := x < 2000 || decide (absR dAir ≤ 109 / (x * x * x))
+    let okVac : Bool := a < 2000 || decide (absR dVac ≤ 109 / (a * a * a))
+    pure (Json.mkObj [("air_ok", Json.bool okAir), ("vac_ok", Json.bool okVac),
+                      -- exact values as scaled integers: floor(value·10¹⁵), floor(difference·10²⁴)
+                      ("a2v_e15", J.ofInt (v * 1000000000000000).floor), ("v2a_e15", J.ofInt (a * 1000000000000000).floor),
+                      ("d_air_e24", J.ofInt (dAir * 1000000000000000000000000).floor),
+                      ("d_vac_e24", J.ofInt (dVac * 1000000000000000000000000).floor),
+                      ("gt", Json.bool (x < 2000 || (decide (x < v) && decide (a < x))))])
+  | "consts" =>
+    pure (Json.mkObj [("ciddor", J.ofList decJ ciddorTable), ("niter", J.ofNat nIter),
+                      ("ab", J.ofList decJ abTable), ("abscalars", J.ofList decJ abScalars)])
+  | _ => throw s!"C19: unknown op {op}"
 
 end PydlVerif.Driver.C19
